@@ -112,6 +112,37 @@ def r14_9(ctx, end: str) -> None:
                   witness=f"state after the first close: {sorted((k[3:], str(v)) for k, v in env2.items() if k.startswith('@f:'))}")
 
 
+def r14_10(ctx) -> None:
+    """Exits are registered through awaitify: what it wraps around a synchronous exit must call that exit once and let its
+    exception through as it is (an exit that raises is not called again), and a user's callable that may be asynchronous is
+    never wrapped as "known to be synchronous"."""
+    from . import c06
+    from .common import Relabel, real_units
+    ctx.rule("R14.10", "the wrappers around registered exits: no handler in awaitify's wrapper can intercept (and retry) a failing "
+                       "exit (C06's handler census on _core, shared); force_async - the wrapper for callables known to be synchronous - "
+                       "is applied by awaitify itself or to a synchronous protocol method (__exit__) only")
+    sub = Relabel(ctx, "R14.10", only=("R06.1",))
+    for u in real_units(ctx):
+        if u.module.short == "_core" and (u.cls is not None and u.cls.name == "Awaitify" or "force_async" in u.short):
+            c06._census(sub, u)
+    if not ctx.pkg.has_unit("_core.force_async"):
+        return
+    fa = ctx.unit("_core.force_async")
+    for u in real_units(ctx):
+        if u.cls is not None and u.cls.name == "Awaitify" and u.module.short == "_core":
+            continue
+        for n in cfg_of(u).nodes:
+            if n.kind != "call" or n.tag or not n.ast.args:
+                continue
+            r = ctx.pkg.resolve_expr_global(u.module, n.ast.func)
+            if r.node is not fa.node:
+                continue
+            arg = n.ast.args[0]
+            ok = isinstance(arg, ast.Attribute) and arg.attr in ("__exit__", "__enter__")
+            ctx.check(ok, "R14.10", u, n.ast, "force_async wraps a synchronous protocol method (a user's callable may be asynchronous without "
+                      "being an `async def`: it goes through awaitify, which looks at what the first call returns)", node=n)
+
+
 def r14_8(ctx) -> None:
     from . import c03
     from .common import Relabel
@@ -137,6 +168,7 @@ def run(ctx) -> None:
     r14_6(ctx)
     r14_7(ctx)
     r14_8(ctx)
+    r14_10(ctx)
     ctx.floor("registration_sites", 3)
     ctx.floor("unwind_scenarios", 312)
 
